@@ -1,15 +1,15 @@
 // bounded stand-in driver (appended to acts/src/package/tests/subflow.rs of a scratch copy): property C15.
 // A calling act stays open until its child process has terminated and is then closed exactly once, in the way the child ended:
 // completed / error (with the child's code and message) / aborted / skipped; a missing target model fails the calling act.
-// 11 scenarios (incl. a calling act whose own catch takes the child's error; a calling act with declared outputs whose child errors / aborts): a timeout rule on the calling act finishing while the child is still open; the child's single irq act answered next / error(code) / abort / skip (the child then completes), a child script that throws (engine error, empty
+// 12 scenarios (incl. a child whose outputs are named like the error fields; a calling act whose own catch takes the child's error; a calling act with declared outputs whose child errors / aborts): a timeout rule on the calling act finishing while the child is still open; the child's single irq act answered next / error(code) / abort / skip (the child then completes), a child script that throws (engine error, empty
 // code), a missing model at depth 1 and at depth 2.
 #[tokio::test]
 async fn verif_replay_hist_subflow_return() {
     use std::sync::{Arc, Mutex};
     let mut bad: Vec<String> = Vec::new();
     #[derive(Clone, Copy, Debug, PartialEq)]
-    enum Sc { Next, ErrorCode, Abort, Skip, ScriptThrows, Missing1, Missing2, TimeoutWhileChildOpen, ErrorCodeDeclaredOutputs, AbortDeclaredOutputs, ErrorCaughtByCallingAct }
-    for sc in [Sc::Next, Sc::ErrorCode, Sc::Abort, Sc::Skip, Sc::ScriptThrows, Sc::Missing1, Sc::Missing2, Sc::TimeoutWhileChildOpen, Sc::ErrorCodeDeclaredOutputs, Sc::AbortDeclaredOutputs, Sc::ErrorCaughtByCallingAct] {
+    enum Sc { Next, ErrorCode, Abort, Skip, ScriptThrows, Missing1, Missing2, TimeoutWhileChildOpen, ErrorCodeDeclaredOutputs, AbortDeclaredOutputs, ErrorCaughtByCallingAct, ErrorChildOutputsNamedLikeTheError }
+    for sc in [Sc::Next, Sc::ErrorCode, Sc::Abort, Sc::Skip, Sc::ScriptThrows, Sc::Missing1, Sc::Missing2, Sc::TimeoutWhileChildOpen, Sc::ErrorCodeDeclaredOutputs, Sc::AbortDeclaredOutputs, Sc::ErrorCaughtByCallingAct, Sc::ErrorChildOutputsNamedLikeTheError] {
         let target = if sc == Sc::Missing1 { "not_deployed" } else { "w2" };
         let mut main = Workflow::new().with_id("main").with_step(|step| step.with_id("step1"));
         if sc == Sc::TimeoutWhileChildOpen {
@@ -18,6 +18,9 @@ async fn verif_replay_hist_subflow_return() {
         } else if sc == Sc::ErrorCodeDeclaredOutputs || sc == Sc::AbortDeclaredOutputs {
             // the calling act declares an output: the child's error / abort must still close it
             main.steps[0].acts.push(Act::subflow(json!({ "to": target })).with_id("call1").with_output("result", json!(null)));
+        } else if sc == Sc::ErrorChildOutputsNamedLikeTheError {
+            // the child hands back outputs that happen to be called `message` and `ecode`: the calling act must still carry the FAILURE's code and message
+            main.steps[0].acts.push(Act::subflow(json!({ "to": target, "options": { "message": "an output of the child", "ecode": "not-the-error" } })).with_id("call1"));
         } else if sc == Sc::ErrorCaughtByCallingAct {
             // the calling act declares a catch-all: the child's error is taken by it, its steps run, then the calling act completes (C06) -- once (C15)
             main.steps[0].acts.push(Act::subflow(json!({ "to": target })).with_id("call1").with_catch(|c| c.with_step(|s| s.with_id("cs1"))));
@@ -27,6 +30,8 @@ async fn verif_replay_hist_subflow_return() {
         let w2 = match sc {
             Sc::ScriptThrows => Workflow::new().with_id("w2").with_step(|step| step.with_id("s1").with_act(Act::code(r#"throw new Error("boom in child");"#).with_id("code1"))),
             Sc::Missing2 => Workflow::new().with_id("w2").with_step(|step| step.with_id("s1").with_act(Act::subflow(json!({ "to": "not_deployed" })).with_id("call2"))),
+            Sc::ErrorChildOutputsNamedLikeTheError => Workflow::new().with_id("w2").with_output("message", json!(null)).with_output("ecode", json!(null))
+                .with_step(|step| step.with_id("s1").with_act(Act::irq(|act| act.with_key("act1")).with_id("act1"))),
             _ => Workflow::new().with_id("w2").with_step(|step| step.with_id("s1").with_act(Act::irq(|act| act.with_key("act1")).with_id("act1"))),
         };
         let (proc, scher, emitter, _tx, _rx) = create_proc_signal::<()>(&mut main, &utils::longid());
@@ -40,7 +45,7 @@ async fn verif_replay_hist_subflow_return() {
                 let mut options = Vars::new();
                 let action = match sc {
                     Sc::Next => EventAction::Next,
-                    Sc::ErrorCode | Sc::ErrorCodeDeclaredOutputs | Sc::ErrorCaughtByCallingAct => { options.set(consts::ACT_ERR_CODE, "err1"); options.set(consts::ACT_ERR_MESSAGE, "sub workflow error"); EventAction::Error }
+                    Sc::ErrorCode | Sc::ErrorCodeDeclaredOutputs | Sc::ErrorCaughtByCallingAct | Sc::ErrorChildOutputsNamedLikeTheError => { options.set(consts::ACT_ERR_CODE, "err1"); options.set(consts::ACT_ERR_MESSAGE, "sub workflow error"); EventAction::Error }
                     Sc::Abort | Sc::AbortDeclaredOutputs => EventAction::Abort,
                     _ => EventAction::Skip,
                 };
@@ -76,6 +81,7 @@ async fn verif_replay_hist_subflow_return() {
         }
         if let Some(t) = &call1 {
             match sc {
+                Sc::ErrorChildOutputsNamedLikeTheError => { let e = t.err(); if e.as_ref().map(|e| (e.ecode.as_str(), e.message.as_str())) != Some(("err1", "sub workflow error")) { diffs.push(format!("the calling act does not carry the child's error code and message but {e:?}")); } }
                 Sc::ErrorCode | Sc::ErrorCodeDeclaredOutputs => { let e = t.err(); if e.as_ref().map(|e| e.ecode.as_str()) != Some("err1") { diffs.push(format!("the calling act does not carry the child's error code: {e:?}")); } }
                 Sc::ScriptThrows => { let e = t.err(); if !e.as_ref().map(|e| e.message.contains("boom in child")).unwrap_or(false) { diffs.push(format!("the calling act does not carry the child's error message: {e:?}")); } }
                 _ => {}
